@@ -20,14 +20,16 @@ package dns
 //@ extern (encoding/binary.bigEndian).PutUint16
 //@   requires len(b) >= 2
 //@   ensures b[0] == v / 256 && b[1] == v % 256
-//@   ensures forall k in 2..len(b) :: b[k] == old(b[k])
+//@   ensures onlywrites(b, 0, 2)
 //@   modifies A.uint8.v
 //@ extern (encoding/binary.bigEndian).PutUint32
 //@   requires len(b) >= 4
 //@   ensures b[0] == v / 16777216 && b[1] == (v / 65536) % 256 && b[2] == (v / 256) % 256 && b[3] == v % 256
+//@   ensures onlywrites(b, 0, 4)
 //@   modifies A.uint8.v
 //@ extern (encoding/binary.bigEndian).PutUint64
 //@   requires len(b) >= 8
+//@   ensures onlywrites(b, 0, 8)
 //@   modifies A.uint8.v
 
 //@ extern fmt.Errorf
@@ -55,4 +57,20 @@ package dns
 // Map decodes and re-encodes UTF-8 (invalid octets become U+FFFD), about which nothing is claimed.
 //@ extern strings.Map
 //@   ensures ascii: ascii7(s) ==> len(ret0) == len(s) && (forall k in 0..len(s) :: ret0[k] == lower(s[k]))
+//@   pure
+
+// time: an instant is identified by (wall, ext); UTC() changes only the location; Unix() is a function of
+// the instant (uninterpreted spec function unixsec).
+//@ spec unixsec(wall int, ext int) int
+//@ spec timezero(wall int, ext int) bool
+//@ extern (time.Time).UTC
+//@   ensures ret0.wall == t.wall && ret0.ext == t.ext
+//@   pure
+//@ extern (time.Time).Unix
+//@   ensures ret0 == unixsec(t.wall, t.ext)
+//@   pure
+//@ extern (time.Time).IsZero
+//@   ensures ret0 == timezero(t.wall, t.ext)
+//@   pure
+//@ extern time.Now
 //@   pure
